@@ -58,7 +58,31 @@ def plan(pids):
         for pid in meta.get("caught_by", []):
             if pid in pids:
                 jobs.append(("mutant", "seeded/" + meta["id"], patch, pid))
+    # behaviour-preserving refactorings written by independent sub-agents (stored diffs): no check
+    # whose scope includes a touched file may report them
+    for patch in sorted(glob.glob(os.path.join(HERE, "benign", "*", "patch.diff"))):
+        name = "refactor/" + os.path.basename(os.path.dirname(patch))
+        touched = [l[6:].strip() for l in open(patch) if l.startswith("+++ b/")]
+        for pid in pids:
+            if any(pid in SCOPE.get(f, ALL) for f in touched):
+                jobs.append(("benign", name, patch, pid))
     return jobs
+
+
+# which checks look at which file (a refactoring of a file is analysed by these)
+SCOPE = {
+    "nasim/envs/network.py": ["C01", "C02", "C03", "C04", "C05", "C06", "C07", "C12", "C13", "C14"],
+    "nasim/envs/host_vector.py": ["C01", "C02", "C04", "C05", "C07", "C08", "C09", "C12", "C13",
+                                  "C19"],
+    "nasim/envs/state.py": ["C02", "C03", "C04", "C06", "C08", "C09", "C10", "C12", "C13", "C19"],
+    "nasim/envs/observation.py": ["C08", "C09", "C10", "C12", "C13"],
+    "nasim/envs/environment.py": ["C04", "C05", "C06", "C08", "C10", "C11", "C12", "C13", "C14",
+                                  "C19"],
+    "nasim/envs/action.py": ["C01", "C05", "C07", "C10", "C11", "C12", "C13"],
+    "nasim/scenarios/scenario.py": ["C06", "C09", "C10", "C11", "C17", "C19"],
+    "nasim/scenarios/loader.py": ["C02", "C09", "C14", "C17", "C18"],
+    "nasim/scenarios/generator.py": ["C09", "C14", "C15", "C16", "C19"],
+}
 
 
 def run(pids, seed=0, procs=16):
